@@ -3,8 +3,10 @@ from .. import scenecheck as sc, scene, gen
 from . import _scene
 
 CFG = dict(nops=8, maxdim=8, init="random", p_clip=0.2, p_layer=0.2, p_structured=0.5,
-           modes=list(range(gen.N_MODES)))
+           modes=list(range(gen.N_MODES)),
+           draw_kinds=["fill", "fill", "fill", "fillrect", "fillrect", "stroke", "clear", "mask", "drawimage", "drawimagesize", "surf", "surf"])
 RULE = ("random scenes over all 28 blend modes, coverage and clip coverage 0..255, alpha in [0,1], layers, all source kinds, "
+        "copy_surface / blend_surface / blend_surface_with_alpha among the drawing calls, "
         "premultiplied inputs; every pixel of the surface and of the top layer after every op of the implementation must "
         "satisfy r,g,b <= a; plus the unit sweep of blend(src,dst) over boundary grids in thorough tier")
 KNOWN = "blend mode Color (sw-composite blend::Color, dependency): blend of premultiplied inputs can exceed alpha; trips pack_argb32's debug assertion"
